@@ -86,11 +86,11 @@ func TestVerifObs(t *testing.T) {
 			}
 			if nd.Repl != nil {
 				digest["log_file"], digest["log_pos"] = nd.Repl.LogFile, nd.Repl.LogPos
-				switch {
-				case nd.Repl.Lag != nil:
-					digest["lag"] = *nd.Repl.Lag
-				case nd.Repl.IO && nd.Repl.SQL:
-					digest["lag"] = nd.LagWhenRunning
+				// Seconds_Behind_Source as the server reports it (absent = NULL)
+				for _, d := range wd.Digest() {
+					if d.Host == "h2" && d.Lag != nil {
+						digest["lag"] = *d.Lag
+					}
 				}
 			}
 			st := app.getNodeState("h2")
